@@ -241,6 +241,7 @@ func c08(c *Ctx) {
 		return // calls that never return hold whatever they hold: nothing after this can be judged
 	}
 	c08ServedInTurn(c, T)
+	c08TCPInTurn(c, T)
 	c08Linearizable(c, T)
 	c08Hammer(c, T)
 }
